@@ -323,12 +323,12 @@ class WorkerPool:
   def call_and_wait(self, *args, courier_method='maybe_make', **kwargs) -> Any:
     """Calls the workers and waits for the results."""
     self._acquire_all()
-    states = [
-        c.call(*args, courier_method=courier_method, **kwargs)
-        for c in self._workers
-    ]
-    states = [state for state in states if state is not None]
     try:
+      states = [
+          c.call(*args, courier_method=courier_method, **kwargs)
+          for c in self._workers
+      ]
+      states = [state for state in states if state is not None]
       result = get_results(states)
     except Exception as e:  # pylint: disable=broad-exception-caught
       raise e
@@ -366,8 +366,11 @@ class WorkerPool:
       elif maybe_acquire:
         unacquired_workers.append(worker)
     for worker in unacquired_workers:
-      if worker.acquire_by(self) and worker.has_capacity and worker.is_alive:
-        return worker
+      if worker.acquire_by(self):
+        if worker.has_capacity and worker.is_alive:
+          return worker
+        # Do not keep a worker that was acquired but cannot be used.
+        worker.release()
 
   @property
   def workers(self) -> list[Worker]:
@@ -415,12 +418,14 @@ class WorkerPool:
     while worker is None:
       worker = self.next_idle_worker(maybe_acquire=True)
       time.sleep(0)
-      if time.time() - start_time > 180:
+      if worker is None and time.time() - start_time > 180:
         raise ValueError('No worker is available.')
-    # Always set blocking to True as run is blocking.
-    task = Task.maybe_as_task(task).set(blocking=True)
-    result = worker.submit(task).result()
-    worker.release()
+    try:
+      # Always set blocking to True as run is blocking.
+      task = Task.maybe_as_task(task).set(blocking=True)
+      result = worker.submit(task).result()
+    finally:
+      worker.release()
     return result
 
   def iterate(
